@@ -798,6 +798,8 @@ def instances(tier):
     out += [("fpshift", "_safe_logaddexp_tensor_tensor", False), ("fpshift", "_safe_logaddexp_number_tensor", True)]
     for sh in [(3,), (2, 2)] + ([(2, 3), (2, 2, 2)] if tier != "quick" else []):
         for ax in [None] + list(range(len(sh))):
+            if sh == (2, 2, 2) and ax is None:
+                continue        # one reduction group of 8 float64 cells: z3's FP theory does not decide it within 2 x 900 s (measured)
             out.append(("fpstab", "logsumexp", sh, ax, False))
     out.append(("fpstab", "logsumexp", (2, 2), 1, True))
     for eq, shs in [("ab,bc->ac", [(2, 2), (2, 2)]), ("ab,b->a", [(2, 2), (2,)]), ("a,a->", [(3,), (3,)]), ("ab->b", [(2, 2)]), ("a,b->ab", [(2,), (2,)]), ("ab,a->ab", [(2, 2), (2,)])] + (
@@ -814,7 +816,7 @@ def main():
     chk.bounds = dict(operands="unconstrained symbolic scalars of each op's carrier (no value enumeration)",
                       shapes=[str(s) for s in (SHAPES_Q if chk.tier == "quick" else SHAPES_T)], power_n="1..6" if chk.tier == "quick" else "1..10",
                       fp="safediv/safesub/reciprocal over all of float64 inside the stated carriers",
-                      fp_stability="logaddexp kernels (AST->FP), ops.logsumexp on shapes up to (2,2)|(2,2,2) and numpy_log.einsum on 6|9 equations with 2x2 operands (Engine F: real kernel on IEEE cells), operands in {-inf} u [-1e300, 1e300]")
+                      fp_stability="logaddexp kernels (AST->FP), ops.logsumexp on shapes up to (2,2)|(2,2,2) (reduction groups of at most 4|6 cells) and numpy_log.einsum on 6|9 equations with 2x2 operands (Engine F: real kernel on IEEE cells), operands in {-inf} u [-1e300, 1e300]")
     chk.assumptions = ["reals for floats except the three FloatingPoint kernels", "libm functions (math.exp etc.) are modelled by the SV algebra (uninterpreted where not polynomial)",
                        "behaviour near the float range boundary is claimed through the stability contract of the stabilising shift (no exp argument above 100, largest one per reduction group at least -100 unless the group is all -inf); accuracy of libm exp/log on [-100, 100] and of float addition of the exponentials is trusted", "NaN inputs outside the claim"]
     chk.floor = 100
